@@ -7,6 +7,7 @@ import (
 	"go/build"
 	"go/parser"
 	"go/token"
+	"math/big"
 	"net/url"
 	"os"
 	"path/filepath"
@@ -45,8 +46,42 @@ func hs(s string) string  { return hexs([]byte(s)) }
 func uhs(s string) string { return string(unhex(s)) }
 
 // hostile material
+// thresholdNumber: the decimal or hexadecimal text of a number at a size threshold - 2^b-1, 2^b, 2^b+1 for the word and
+// field widths a parser may have in mind (8 ... 2048 bits), and 10^k-1, 10^k at the digit counts where those numbers
+// change length - optionally zero-padded or signed. Digit-count pre-checks and fixed buffers break exactly here.
+func thresholdNumber(rng *gen.RNG) string {
+	v := new(big.Int)
+	if rng.Bool() {
+		b := gen.Pick(rng, []uint{8, 16, 31, 32, 63, 64, 127, 128, 255, 256, 511, 512, 1016, 1023, 1024, 1025, 1032, 2047, 2048})
+		v.Lsh(big.NewInt(1), b)
+	} else {
+		k := gen.Pick(rng, []int64{19, 20, 38, 39, 77, 78, 154, 155, 300, 307, 308, 309, 310, 617})
+		v.Exp(big.NewInt(10), big.NewInt(k), nil)
+	}
+	v.Add(v, big.NewInt(int64(rng.Intn(3)-1)))
+	if rng.Intn(4) == 0 {
+		// somewhere between this threshold and the next power of ten
+		v.Mul(v, big.NewInt(int64(2+rng.Intn(4))))
+	}
+	t := v.Text(10)
+	if rng.Intn(4) == 0 {
+		t = v.Text(16)
+	}
+	switch rng.Intn(8) {
+	case 0:
+		t = "0" + t
+	case 1:
+		t = "+" + t
+	case 2:
+		t = strings.Repeat("0", 1+rng.Intn(20)) + t
+	}
+	return t
+}
+
 func hostileString(rng *gen.RNG) string {
-	switch rng.Intn(15) {
+	switch rng.Intn(16) {
+	case 14:
+		return thresholdNumber(rng)
 	case 0:
 		return ""
 	case 1:
